@@ -51,6 +51,7 @@ fn main() {
         "C03" | "C02" | "C04" => multi::run(seed, tier, &mut out, false),
         "C03b" => multi::run(seed, tier, &mut out, true),
         "C19M" => multi::run_small(seed, tier, &mut out),
+        "C03H" => multi::run_detour(seed, tier, &mut out),
         "ROWS" => multi::run_rows(seed, tier, &mut out),
         "C05M" => multi::run_limited(seed, tier, &mut out),
         _ => { eprintln!("unknown property {prop}"); std::process::exit(2); }
